@@ -208,14 +208,21 @@ def check_sums(F, S, tss, classes, s, roles, inv, post_expect, out_expect, rid, 
                 got = sub(ret, pre_map)
                 # resolve an inactive clamp inside the output as well
                 alts = [got]
+                def nonneg_quantity(keep):
+                    # the clamp is free only around the quantity that is non-negative by what it IS: the sum of squared deviations
+                    # (the expected m2') or that sum over the count (the operand of the root) — not around any signed part of it
+                    if isinstance(oe, tuple) and oe[0] == "sqrt" and u.eq(keep, oe[1]):
+                        return True
+                    return any(r2 in NONNEG_ROLES and u.eq(keep, exp[r2]) for r2 in roles)
                 for x in (subterms(got) if s in CLAMPED_OUTPUT else ()):
                     if x[0] == "gamma" and (x[2] == cf(0.0) or x[3] == cf(0.0)):
                         keep = x[3] if x[2] == cf(0.0) else x[2]
-                        if inactive_clamp(x, keep, u.eq):
+                        if inactive_clamp(x, keep, u.eq) and nonneg_quantity(keep):
                             alts.append(sub(got, {x: keep}))
                     elif x[0] == "max" and len(x) == 3 and (x[1] == cf(0.0) or x[2] == cf(0.0)):
                         keep = x[2] if x[1] == cf(0.0) else x[1]
-                        alts.append(sub(got, {x: keep}))
+                        if nonneg_quantity(keep):
+                            alts.append(sub(got, {x: keep}))
                 if not any(u.N.key(a_) == u.N.key(oe) or u.eq(a_, oe) for a_ in alts):
                     fails.append("%s%s: output %s is not %s" % (which, " (first call)" if zero else "", show(got)[:110], show(oe)[:90]))
                 else:
